@@ -259,3 +259,19 @@ package main
 //@   assertat "if err := validateCompiledInput(route, nil); err != nil {"#3 !bodyMethod(ctx.Request.Method)
 //@ func executeRoute
 //@   assertat "if shouldParseJSON && ctx.Request.Body != nil {" shouldParseJSON == jsonCT(contentType) && bodyMethod(ctx.Request.Method)
+
+// ---- path and query binding of interpreted routes (C05, C02): the interpreter is handed the bindings the router made
+// ---- (every path parameter bound to the request segment Router.Match bound it to - the compiled handler reads the same
+// ---- map), and the query string it finds after the first "?" of Request.Path is the request's raw query: a decoded
+// ---- segment that contains "?" (%3F) must not be mistaken for the separator.
+// facts about the strings library, stated for "?" only: after ReplaceAll(p, "?", r) with r free of "?" none remains; the
+// first "?" of a + "?" + b, for a free of "?", is at len(a); cutting a concatenation after its left part gives the right part
+//@ spec func qIdx(p string) int = libcall(strings.Index, p, "?")
+//@ spec func queryOf(p string) string = ite(qIdx(p) == -1, "", p[qIdx(p)+1:len(p)])
+//@ axiom escNoQ(p string): libcall(strings.Index, libcall(strings.ReplaceAll, p, "?", "%3F"), "?") == -1
+//@ axiom idxConcatQ(a string, b string): libcall(strings.Index, a, "?") == -1 ==> libcall(strings.Index, a + ("?" + b), "?") == len(a)
+//@ axiom cutRightQ(a string, b string): (a + ("?" + b))[len(a)+1:len(a + ("?" + b))] == b
+//@ func executeRoute
+//@   callpre (*interpreter.Interpreter).ExecuteRoute arg2 != nil && arg2.Params == ctx.PathParams && queryOf(arg2.Path) == ctx.Request.URL.RawQuery
+//@ func createHandler$1
+//@   callpre dyn(server.RouteHandler) arg0 != nil && arg0.PathParams == local(params) && arg0.Request == r
